@@ -32,9 +32,11 @@ end Mesh1D
 def uniMesh (n : ℕ) (L x0 : α) : Mesh1D α :=
   { n := n, xf := fun i => (i : α) * (L / n) + x0, length := L }
 
-/-- `morphedmesh(ncell, length, x0, morph)`: `morph(linspace + x0)`; keeps `length` -/
+/-- `morphedmesh(ncell, length, x0, morph)`: `morph(linspace + x0)`; `length` is the span of the
+morphed faces `xf[-1]-xf[0]` -/
 def morphedMesh (n : ℕ) (L x0 : α) (morph : α → α) : Mesh1D α :=
-  { n := n, xf := fun i => morph ((i : α) * (L / n) + x0), length := L }
+  { n := n, xf := fun i => morph ((i : α) * (L / n) + x0),
+    length := morph ((n : α) * (L / n) + x0) - morph ((0 : ℕ) * (L / n) + x0) }
 
 /-- `refinedmesh(ncell, length, ratio, nratioa, nratiob)` with `nc1 = int(ncell*a/(a+b))` cells in
 the first zone: `append(linspace(0, dx1*nc1, nc1, endpoint=False), linspace(dx1*nc1, length, nc2+1))` -/
